@@ -470,6 +470,97 @@ bool rank0ConstraintSite(const ProgSpec& P) {
 }
 bool g_noExclusions = false;   // set by directed reproducers
 
+
+// ------------------------------------------------------------------ isolation histories with prescribed / locked speeds
+// A small family of constrained models: a planar chain of nLoop one-dof links whose tip is tied to Ground (Rod / Ball /
+// PointInPlane: every mobility of the chain takes part in the constraint) plus nOff links hanging off the chain (outside the
+// loop), optionally with ONE mobility whose speed is prescribed (Motion::Steady) or locked (lock / lockAt / lockByDefault).
+// Every execution builds a brand new System, State and Integrator; what ran before in this thread must not matter.
+const char* prescName[] = {"none", "Motion::Steady", "lock(Velocity)", "lockAt(Velocity)", "lockByDefault(Velocity)", "lock(Position)"};
+const char* isoModeName[] = {"integrate", "projectU", "project"};
+struct IsoSpec {
+    int nLoop = 3, nOff = 1, type[6] = {0, 0, 0, 0, 0, 0}; double len[6], q0[6], u0[6]; double mass = 1; int cons = 0; Vec3 anchorOff = Vec3(0);
+    int presc = 0, target = 0; double rate = 1; int mode = 0, integ = 0; double acc = 1e-3, T = 0.2; int nRep = 3;
+    int nu() const { return nLoop + nOff; }
+    bool targetInLoop() const { return target < nLoop; }
+    void describe(std::ostream& o) const { o.precision(17); o << "iso model: loop of " << nLoop << " + " << nOff << " off-loop links, types";
+        for (int i = 0; i < nu(); ++i) o << " " << (type[i] ? "Slider" : "Pin"); o << "; constraint " << (cons == 0 ? "Rod" : cons == 1 ? "Ball" : "PointInPlane") << "; prescription " << prescName[presc] << " on link " << target << (targetInLoop() ? " (in the loop)" : " (outside the loop)") << " rate " << rate
+          << "; mode " << isoModeName[mode] << " integ " << integName[integ] << " acc " << acc << " T " << T << "; q0/u0:"; for (int i = 0; i < nu(); ++i) o << " " << q0[i] << "/" << u0[i]; o << "\n"; }
+};
+// wantNu > 0: produce exactly that many mobilities
+IsoSpec decodeIso(pbt::Reader& r, int wantNu) {
+    IsoSpec X; uint32_t a = r.w(), b = r.w(), c = r.w();
+    X.nLoop = 2 + (int)(a % 3); X.nOff = (int)((a >> 2) % 3);
+    if (wantNu > 0) { if (wantNu < 2) wantNu = 2; X.nLoop = std::min(X.nLoop, std::min(wantNu, 4)); X.nOff = wantNu - X.nLoop; if (X.nOff > 2) { X.nOff = 2; X.nLoop = wantNu - 2; } }
+    X.cons = (int)((a >> 4) % 3);
+    X.presc = (int)((a >> 6) % 8); if (X.presc > 5) X.presc = 1;      // Motion::Steady three times as likely
+    X.target = (int)((a >> 9) % (uint32_t)X.nu());
+    X.mode = ((a >> 12) % 4) == 3 ? 1 + (int)((a >> 14) & 1u) : 0;    // 3/4 integrator-driven, 1/4 direct projectU / project
+    static const int igs[] = {I_RKM, I_RK3, I_VERLET, I_RKF, I_SEE2, I_RK2}; X.integ = igs[(a >> 16) % 6];
+    X.acc = (a >> 20) & 1u ? 1e-3 : 1e-4; X.T = 0.1 + 0.05 * ((a >> 21) % 4); X.nRep = 2 + (int)((a >> 23) % 3);
+    X.mass = 0.5 + ((a >> 25) % 8) * 0.25;
+    SplitMix rg{((uint64_t)b << 32) ^ c ^ 0x150ull};
+    for (int i = 0; i < 6; ++i) { X.type[i] = rg.pick(4) == 3 ? 1 : 0; X.len[i] = 0.6 + 0.6 * rg.unit(); X.q0[i] = X.type[i] ? 0.2 * rg.sym() : (i == 0 ? 0.3 : 0.9) * (0.3 + 0.7 * rg.unit()) * (rg.pick(2) ? 1 : -1); X.u0[i] = 0.5 + 1.5 * rg.unit(); if (rg.pick(2)) X.u0[i] = -X.u0[i]; }
+    X.rate = (0.4 + 1.4 * rg.unit()) * (rg.pick(2) ? 1 : -1);
+    X.anchorOff = Vec3(0.3 * rg.sym(), 0.3 * rg.sym(), 0);
+    return X;
+}
+Trace runIso(const IsoSpec& X) {
+    Trace tr; Hasher end;
+    try {
+        MultibodySystem sys; SimbodyMatterSubsystem matter(sys); GeneralForceSubsystem forces(sys); forces.setNumberOfThreads(1);
+        Force::Gravity(forces, matter, Vec3(0, -9.81, 0)); Force::GlobalDamper(forces, matter, 0.1);
+        std::vector<MobilizedBody> mb; const int n = X.nu();
+        auto body = [&](double L) { return Body::Rigid(MassProperties(X.mass, Vec3(0, -L / 2, 0), UnitInertia::cylinderAlongY(0.05, L / 2).shiftFromCentroid(Vec3(0, L / 2, 0)))); };
+        auto add = [&](MobilizedBody& parent, const Vec3& at, int i) { Body::Rigid bd = body(X.len[i]);
+            if (X.type[i]) mb.push_back(MobilizedBody::Slider(parent, Transform(at), bd, Transform())); else mb.push_back(MobilizedBody::Pin(parent, Transform(at), bd, Transform())); };
+        for (int i = 0; i < X.nLoop; ++i) { if (i == 0) add(matter.Ground(), Vec3(0), i); else { MobilizedBody par = mb[i - 1]; add(par, Vec3(0, -X.len[i - 1], 0), i); } }
+        for (int k = 0; k < X.nOff; ++k) { const int i = X.nLoop + k; MobilizedBody par = mb[k % X.nLoop]; add(par, Vec3(0, -X.len[k % X.nLoop] / 2, 0.1), i); }
+        auto setQU = [&](State& s) { for (int i = 0; i < n; ++i) { mb[i].setOneQ(s, 0, X.q0[i]); mb[i].setOneU(s, 0, X.u0[i]); } };
+        // tip position in the initial configuration -> constraint that is satisfied there
+        Vec3 tip; { State s0 = sys.realizeTopology(); setQU(s0); sys.realize(s0, Stage::Position); tip = mb[X.nLoop - 1].findStationLocationInGround(s0, Vec3(0, -X.len[X.nLoop - 1], 0)); }
+        MobilizedBody last = mb[X.nLoop - 1]; const Vec3 st(0, -X.len[X.nLoop - 1], 0);
+        if (X.cons == 0) { Vec3 anchor = tip + Vec3(0.5, -0.6, 0) + X.anchorOff; Constraint::Rod(matter.Ground(), anchor, last, st, (tip - anchor).norm()); }
+        else if (X.cons == 1) Constraint::Ball(matter.Ground(), tip, last, st);
+        else { UnitVec3 nrm(Vec3(0.4 + X.anchorOff[0], 1, 0)); Constraint::PointInPlane(matter.Ground(), nrm, dot(nrm, tip), last, st); }
+        if (X.presc == 1) Motion::Steady(mb[X.target], X.rate);
+        if (X.presc == 4) mb[X.target].lockByDefault(Motion::Velocity);
+        State s = sys.realizeTopology(); setQU(s);
+        if (X.presc == 2) mb[X.target].lock(s, Motion::Velocity);
+        if (X.presc == 3) mb[X.target].lockAt(s, X.rate, Motion::Velocity);
+        if (X.presc == 5) mb[X.target].lock(s, Motion::Position);
+        auto rec = [&](const State& st, int status) { Hasher H; H.i(status); H.d(st.getTime()); H.vec(st.getY()); tr.h.push_back(H.h); tr.t.push_back(st.getTime()); };
+        std::ostringstream how;
+        if (X.mode == 0) {
+            std::unique_ptr<Integrator> ig;
+            switch (X.integ) { case I_RK3: ig.reset(new RungeKutta3Integrator(sys)); break; case I_VERLET: ig.reset(new VerletIntegrator(sys)); break; case I_RKF: ig.reset(new RungeKuttaFeldbergIntegrator(sys)); break;
+                case I_SEE2: ig.reset(new SemiExplicitEuler2Integrator(sys)); break; case I_RK2: ig.reset(new RungeKutta2Integrator(sys)); break; default: ig.reset(new RungeKuttaMersonIntegrator(sys)); }
+            ig->setAccuracy(X.acc); ig->setInternalStepLimit(400);
+            try {
+                ig->initialize(s); rec(ig->getState(), -1);
+                for (int k = 1; k <= X.nRep; ++k) { Integrator::SuccessfulStepStatus stt = ig->stepTo(X.T * k / X.nRep); rec(ig->getState(), (int)stt); }
+                how << "done";
+            } catch (const std::exception& e) { how << "exception: " << e.what(); }
+            how << " | steps=" << ig->getNumStepsTaken() << " attempted=" << ig->getNumStepsAttempted() << " errTestFailures=" << ig->getNumErrorTestFailures() << " qProjections=" << ig->getNumQProjections()
+                << " uProjections=" << ig->getNumUProjections() << " projectionFailures=" << ig->getNumProjectionFailures() << " realizations=" << ig->getNumRealizations();
+        } else {
+            try {
+                for (int pass = 0; pass < 2; ++pass) {
+                    if (X.mode == 1) { sys.realize(s, Stage::Position); sys.projectU(s, X.acc * 1e-2); } else sys.project(s, X.acc * 1e-2);
+                    rec(s, pass);
+                    // second pass from perturbed free speeds (the prescribed ones are set again by the projection)
+                    for (int i = 0; i < n; ++i) mb[i].setOneU(s, 0, mb[i].getOneU(s, 0) + 0.1 * (i + 1));
+                }
+                how << "done";
+            } catch (const std::exception& e) { how << "exception: " << e.what(); }
+            how << " | projectQ calls=" << sys.getNumProjectQCalls() << " projectU calls=" << sys.getNumProjectUCalls() << " failed=" << sys.getNumFailedProjectQCalls() + sys.getNumFailedProjectUCalls();
+        }
+        tr.end = how.str();
+    } catch (const std::exception& e) { tr.end = std::string("build-exception: ") + e.what(); }
+    end.s(tr.end); tr.h.push_back(end.h); tr.t.push_back(-1);
+    return tr;
+}
+
 // ------------------------------------------------------------------ the property
 void property(const pbt::Tape& t, pbt::Ctx& ctx) {
     pbt::Reader g(t[0]);
@@ -547,6 +638,37 @@ void property(const pbt::Tape& t, pbt::Ctx& ctx) {
     }
     // (5) once more alone after everything
     { int j = sched.pick(nProg); if (!compare(j, runProgramAlone(P[j]), "alone, after the interleaved phase")) return; }
+    // (6) isolation histories generated inside the case: a constrained model X that (usually) has a prescribed or locked speed is
+    //     executed, then unrelated models of the same family ("intruders": with a good chance the same number of mobilities, all of
+    //     them free and taking part in a velocity projection, or the SAME model before the lock / motion is applied), then X again
+    //     with a brand new System / State / Integrator: bit-identical returned states, end status and step / projection statistics.
+    pbt::Reader gi(t[0]); gi.skip(8);
+    for (int hist = 0; hist < 4; ++hist) {     // four independent histories per case (10 words of segment 0 each; a few ms each)
+        const uint32_t sw = gi.w();
+        IsoSpec X = decodeIso(gi, 0); if ((sw & 7u) == 0) X.presc = 0;                       // 1/8: X itself has nothing prescribed
+        IsoSpec Y[2]; bool sameNu = false, sameUnlocked = false;
+        for (int k = 0; k < 2; ++k) { const uint32_t m = (sw >> (3 + 4 * k)) & 15u;
+            Y[k] = decodeIso(gi, (m & 3u) != 0 ? X.nu() : 0);                                  // 3/4: the same number of mobilities
+            if ((m >> 2) == 1) { IsoSpec same = X; same.presc = 0; same.mode = Y[k].mode; Y[k] = same; sameUnlocked = true; }   // the same model, not yet locked / driven
+            else if ((m >> 2) != 2) Y[k].presc = 0;                                           // mostly: every mobility of the intruder is free
+            if (Y[k].nu() == X.nu() && (Y[k].presc == 0 || Y[k].target != X.target)) sameNu = true; }
+        if (ctx.wantDesc) { ctx.desc << "isolation history " << hist << ": intruder 0, X, intruder 1, X, X, intruder 0\n X: "; X.describe(ctx.desc); ctx.desc << " intruder 0: "; Y[0].describe(ctx.desc); ctx.desc << " intruder 1: "; Y[1].describe(ctx.desc); }
+        Trace y0 = runIso(Y[0]); Trace a = runIso(X); Trace y1 = runIso(Y[1]); Trace b = runIso(X); Trace c2 = runIso(X); Trace y0b = runIso(Y[0]);
+        (void)y1;
+        auto cmp = [&](const Trace& p, const Trace& q, const std::string& what) { std::string d = diffTraces(p, q);
+            if (!d.empty()) { std::ostringstream o; o << "isolation history (" << what << "): the same model (" << (X.presc ? std::string("with ") + prescName[X.presc] + (X.targetInLoop() ? " inside" : " outside") + " the constrained loop" : std::string("nothing prescribed"))
+                << ", " << isoModeName[X.mode] << ") built and run again in this process gives a different result: " << d; ctx.fail(o.str()); }
+            return d.empty(); };
+        if (!cmp(a, b, "X after intruder 0 vs X after intruder 1")) return;
+        if (!cmp(b, c2, "X after intruder 1 vs X repeated immediately")) return;
+        if (!cmp(y0, y0b, "intruder 0 first in the history vs after X")) return;
+        ctx.label("isolation:history");
+        if (sameNu) ctx.label("isolation:same-nu-intruder"); if (sameUnlocked) ctx.label("isolation:same-model-before-lock");
+        if (X.presc) { ctx.label("isolation:prescribed+constrained"); ctx.label(std::string("isolation:presc:") + prescName[X.presc]); ctx.label(X.targetInLoop() ? "isolation:target-in-loop" : "isolation:target-off-loop"); }
+        else if (Y[0].presc || Y[1].presc) ctx.label("isolation:prescribed-intruder-first");
+        ctx.label(std::string("isolation:mode:") + isoModeName[X.mode]);
+        ctx.label(a.end.rfind("done", 0) == 0 ? "isolation:end:done" : "isolation:end:exception");
+    }
     if (!unrelFail.empty()) { ctx.fail(unrelFail); return; }
     ctx.label(std::string("programs:") + std::to_string(nProg)); ctx.label(std::string("distinct-programs:") + std::to_string(distinct));
     ctx.label(nUnrel == 0 ? "unrelated-calls:0" : nUnrel <= 3 ? "unrelated-calls:1-3" : "unrelated-calls:4+");
@@ -577,6 +699,7 @@ pbt::Config config() {
         else if (!d2.empty()) ctx.fail("Rod between Ground and a body welded to Ground (G M^-1 ~G = 0, rank 0): trajectory hash incl. multipliers changes with the history of the heap: " + d2);
     }});
     c.requiredLabels = {"model:tree+forces", "model:constrained", "model:huntcrossley", "model:elasticfoundation-mesh", "model:compliantcontact", "integ:RungeKuttaMerson", "integ:Verlet", "integ:CPodesBDF", "integ:SemiExplicitEuler2",
+                        "isolation:history", "isolation:same-nu-intruder", "isolation:prescribed+constrained", "isolation:same-model-before-lock", "isolation:target-in-loop", "isolation:target-off-loop", "isolation:mode:integrate", "isolation:mode:projectU", "isolation:mode:project", "isolation:end:done",
                         "unrelated:optimizer-cmaes", "unrelated:factorization", "unrelated:mesh-query", "unrelated:random", "unrelated:xml-string", "unrelated:polygonalmesh", "end:done"};
     return c;
 }
